@@ -88,7 +88,7 @@ def _calendar_tabulate(ctx, cls: str) -> None:
         out = []
         for label, mins in (("12:00", 720), ("early", 90 if d in w.skipped else 30)):
             for fold in (0, 1):
-                out.append((f"at {label} fold={fold}", w.datetime(d, mins, fold)))
+                out.append((f"at {label} fold={fold}", w.datetime(d, mins, fold, sub=(7, 123) if label == "12:00" else (0, 0))))
         return out
 
     def verdict(w, got, want, keep=None, recv=None):
@@ -101,9 +101,11 @@ def _calendar_tabulate(ctx, cls: str) -> None:
         if not is_dt:
             return ""
         if keep:
-            return "" if g["_mins"] == vars(recv)["_mins"] else f"time of day {g['_mins'] // 60:02d}:{g['_mins'] % 60:02d} instead of the instance's"
+            r = vars(recv)
+            return "" if (g["_mins"], g["_sub"]) == (r["_mins"], r["_sub"]) else \
+                f"time of day {g['_mins'] // 60:02d}:{g['_mins'] % 60:02d}:{g['_sub'][0]:02d}.{g['_sub'][1]:06d} instead of the instance's 12:00:07.000123"
         sm, sf = w.sod(want)
-        if g["_mins"] != sm:
+        if g["_mins"] != sm or g["_sub"] != (0, 0):
             return f"at {g['_mins'] // 60:02d}:{g['_mins'] % 60:02d} instead of the start of the day ({sm // 60:02d}:00)"
         if want in w.repeated and g["fold"] != 0:
             return "second occurrence of the repeated start of the day"
